@@ -284,8 +284,21 @@ def run_case(case):
         step = max(1, len(texts) // 40)
         pick = texts[::step][:40]
         lines3 = []
+        def lit9(x):
+            # SINGLE: the 9-digit decimal spelling (it identifies x, but as a decimal number it is not exactly x - a compiler
+            # that formats the literal's decimal value instead of the SINGLE it denotes shows different digits)
+            if ty == '!' and x == x and abs(x) not in (0.0, float('inf')):
+                t9 = '%.9g' % x
+                if rsingle(float(t9)) == x:
+                    t9 = t9.replace('e', 'E')
+                    neg = t9.startswith('-')
+                    t9 = t9.lstrip('-')
+                    if 'E' not in t9 and '.' not in t9:
+                        t9 += '!'
+                    return ('-' if neg else '') + t9
+            return lit_of(ty, x)
         for v, x, tx in pick:
-            lit = lit_of(ty, x)
+            lit = lit9(x)
             lines3 += [f'PRINT VAL("{tx.strip()}")', f'PRINT STR$({lit})', f'PRINT {lit}']
         drv3 = '\n'.join(lines3) + '\n'
         for cfg in ((0, False), (2, False), (1, True)):
@@ -307,11 +320,11 @@ def run_case(case):
                 viol += [dict(w, sig=w['sig'] + ':constant-text') for w in roundtrip_viol(ty, x, tx, back, 'VAL')]
                 stxt = p3[3 * i + 1][1][0][2]
                 if isinstance(stxt, str) and stxt.strip() != tx.strip():
-                    viol.append(V(f'C16:str-of-constant-differs:{ty}', f'{rt.cfg_name(cfg)}: STR$({lit_of(ty, x)}) gives {stxt!r}, the same '
+                    viol.append(V(f'C16:str-of-constant-differs:{ty}', f'{rt.cfg_name(cfg)}: STR$({lit9(x)}) gives {stxt!r}, the same '
                                   f'value held in a variable prints as {tx!r}', value=repr(x)))
                 pv = p3[3 * i + 2][1][0]
                 if pv[1] != ty or (pv[2] != x and not (pv[2] != pv[2] and x != x)):
-                    viol.append(V(f'C16:constant-value-differs:{ty}', f'{rt.cfg_name(cfg)}: PRINT {lit_of(ty, x)} pushes {pv[1:]}, the '
+                    viol.append(V(f'C16:constant-value-differs:{ty}', f'{rt.cfg_name(cfg)}: PRINT {lit9(x)} pushes {pv[1:]}, the '
                                   f'value read from DATA was {x!r}', value=repr(x)))
     sample = {'type': ty, 'value': repr(vals[0]), 'print_text': texts[0][2] if texts else None}
     # de-duplicate violations by signature within the case, keep counts
